@@ -1,5 +1,6 @@
 import Proofs.Props.C08
 import Proofs.Props.C06
+import Proofs.Lemmas.ServerBound
 /-!
   C09 — no peer input can crash, wedge or bloat an endpoint (server endpoint
   here; client endpoint in `Proofs/Props/C09Client.lean`).
@@ -167,8 +168,22 @@ theorem C09_released (s : Srv α) (err : Option String) :
   simp only [Srv.serveReturns] at he
   exact this _ e he
 
-/-! ### bounded buffering: see `Proofs.C06.C06_receiver_bounded` (any operation
-    sequence on a receiver keeps queued bytes ≤ W) -/
+/-! ### bounded buffering -/
+
+/-- **Bounded buffering.** For every history of stimuli of the server endpoint
+    (arbitrary frames from any peer, handler calls, ticks, flag changes, carrier
+    ends) every flow-controlled stream buffers at most its advertised window. -/
+theorem C09_bounded (cfg : SCfg) (xs : List (SStim α)) :
+    ∀ e ∈ (Srv.run cfg ({} : Srv α) xs).1.streams, e.2.fc = true →
+      Proofs.ServerBound.queuedBytes e.2 ≤ cfg.W :=
+  Proofs.ServerBound.C09_bounded cfg xs
+
+/-- **The receive loop never wedges under flow control.** For every history, no
+    flow-controlled stream ever puts the receive loop into the blocking hand-off
+    that revision zero has (`unsupported` marks exactly that state). -/
+theorem C09_loop_never_blocks_fc (cfg : SCfg) (xs : List (SStim α)) :
+    ∀ e ∈ (Srv.run cfg ({} : Srv α) xs).1.streams, e.2.fc = true → e.2.unsupported = false :=
+  Proofs.ServerBound.fc_never_unsupported cfg xs
 
 -- non-vacuity: an empty method name is answered by a stream-level refusal, not a crash
 example :
